@@ -4,12 +4,23 @@
    parser object. *)
 From Coq Require Import String NArith List Bool.
 From Kd Require Import theories.Base theories.Printers theories.Filters theories.Pairing theories.PairingProofs
-  theories.PairingProj theories.PairingFilter theories.FiltersTraces theories.FiltersPipeline theories.Container
+  theories.PairingProj theories.PairingFilter theories.FiltersTraces theories.FiltersRefine gen.GenFilters theories.FiltersPipeline theories.Container
   theories.DecoderDSL theories.DecoderDeps theories.Format theories.FiltersPipelineTables gen.GenEnums gen.GenDecoders
   gen.GenCodes.
 Import ListNotations.
 Open Scope N_scope.
 Close Scope string_scope.
+
+(* 0. the model IS the code: the helper classes traces() adds, their conditions, the post-filters and the order of the filter
+      stages are regenerated from the source on every run (gen/GenFilters.v) and are those of the model *)
+Theorem c13_code_helpers : forall cfg, helper_classes cfg = map fst (filter (helper_on cfg) gen_helpers).
+Proof. exact gen_helpers_model. Qed.
+Theorem c13_code_post_filters : forall cfg code,
+  post_keep cfg code
+  = forallb (fun h => negb (helper_on cfg h) || negb (N.eqb (cls code) (fst h)) || allowed cfg code) gen_post_filters.
+Proof. exact gen_post_filters_model. Qed.
+Theorem c13_code_stage_order : gen_stages = ["pair"; "tid"; "process"; "post"; "post"; "post"; "return"]%string.
+Proof. exact gen_stage_order. Qed.
 
 (* 1. the helper classes are consumed but never reported unless requested themselves: among the events fed to the
       machine exactly the requested codes survive the post-filters - for every configuration and every code *)
